@@ -358,7 +358,10 @@ pub fn examine_program(text: &str, origin: &str, seed: u64, report: &mut Report)
                     compared_any = true;
                     report.count("compared:msl");
                     if let Some(d) = truth.diff(&got) {
-                        report.violation("meaning-changed", &format!("function {} computes a different result in the emitted Metal: {}", name, d), w(name, &args, &truth.describe(), &got.describe()));
+                        // output in which a function writes to a parameter declared as a plain array: the copy the source passes
+                        // has become the caller's array
+                        let shape = if crate::oracle::decls::written_array_parameters(&tree).is_empty() { "" } else { ":callee-writes-array-parameter" };
+                        report.violation(&format!("meaning-changed{}", shape), &format!("function {} computes a different result in the emitted Metal: {}", name, d), w(name, &args, &truth.describe(), &got.describe()));
                     }
                 }
                 Err(t) => {
@@ -379,8 +382,11 @@ pub fn examine_program(text: &str, origin: &str, seed: u64, report: &mut Report)
                             w(name, &args, &truth.describe(), &detail),
                         );
                     } else {
+                        // a value that was never written, in output that declares a local initialised from its own name: the
+                        // hidden outer entity of the source has become the new variable itself
+                        let shape = if class == "trap:uninitialised" && !crate::oracle::decls::self_named_initialisers(&tree).is_empty() { ":local-initialised-from-its-own-name" } else { "" };
                         report.violation(
-                            &format!("emitted-undefined:{}", class),
+                            &format!("emitted-undefined:{}{}", class, shape),
                             &format!("function {} is defined on the source but the emitted Metal traps ({})", name, class),
                             w(name, &args, &truth.describe(), &detail),
                         );
